@@ -428,7 +428,7 @@ def run(ctx):
         elif detail is not None:
             ctx.disagree('C02 ' + stream, {'case': case, 'detail': detail})
     from harness.props import c02_ties
-    c02_ties.run_ties(ctx, {'tie-filterm': ctx.scale(40, 400)})
+    c02_ties.run_ties(ctx, {'tie-filterm': ctx.scale(40, 400), 'tie-multi': ctx.scale(200, 1600)})
 
 
 def replay(ctx, case):
